@@ -12,7 +12,7 @@ Monitors (ctx.check ``mon=`` names)
   anom_reference    each conversion equals the independent value (circle distance)
   kepler_residual   E - e sin E - M = 0 and F + h cos F - k sin F - lambda = 0 (mod 2 pi) for the returned roots
   kepler_solve      keplerSolveCOE / keplerSolveEQE called directly with the documented initial guesses
-  predicates        isEccentric / isInclined against the documented limits (outside a relative 1e-9 band)
+  predicates        isEccentric / isInclined against the documented limits (outside a relative 1e-9 / 1e-5 band)
   coe_forward       coe2eci(elements) == definition
   coe_ranges        eci2coe / eqe2coe outputs: e in [0,1), i in [0,pi], raan/argp/anomaly in [0, 2 pi)
   coe_values        eci2coe(state) reproduces a, e, i (always) and the three angles (regular orbits only)
@@ -37,6 +37,16 @@ Tolerances (calibrated on the unchanged tree: 6.4e5 orbits + 6.4e5 anomaly cases
   * equatorial  below INCLINATION_LIMIT (and inside the arccos resolution band 1e-7 rad) raan := 0  ->  + 4 min(i, pi - i)
   * EQE         p, q = w_xy / (1 + I w_z): relative conditioning 2 / (1 + I cos i); sets are only exercised where
                 this factor is <= 4e6 (1e-3 rad away from their own singular pole)
+
+Mechanism keys of genuine defects seen on the tree this module was built against (each classified from observed facts)
+  coe-roundtrip-retrograde-equatorial      i >= 180 deg - 1e-7 rad and the round-trip state equals the state obtained by reading the
+                                           returned longitude eastward (eci2coe lacks the i > 90 deg flip of Vallado's rv2coe)
+  singularity-check-retrograde-equatorial  same family of orbits, raan != 0: result equals the definition evaluated at -raan
+                                           (utils.singularityCheck forms raan + argp (+ nu) instead of argp - raan (+ nu))
+  eqe-class-retro-flag-dropped             EquinoctialElements.fromECI / fromCOE(..., retro=True) return an object with is_retro False
+  angle-range-upper-end-2pi-wrap           wrapAngle2Pi(-tiny) = 2 pi  (anomaly.py wrappers, singularityCheck, eci2eqe)
+  angle-range-upper-end-2pi-quadrant       fixAngleQuadrant(0, negative) = 2 pi - 0  (eci2coe, e.g. true anomaly just before perigee)
+Anything else (``coe-roundtrip``, ``eqe-roundtrip-retro``, ``config-*``, ``anomaly-*``, ``kepler-*``, ``*-raised`` ...) is a new mechanism.
 """
 
 from __future__ import annotations
@@ -500,7 +510,7 @@ def chk_orbit(ctx, els):
         def k(tol):
             if retro_eq:
                 for sig in ((sma, e, inc, 0.0, raan - argp, nu), (sma, e, inc, 0.0, 0.0, raan - argp - nu)):   # eccentric / circular form
-                    if _serr(x, kr.state_from_coe(*sig)) <= max(tol, 1e-9) + 4.0 * apx + 4.0 * (e if e < 2 * E_LIM else 0.0):
+                    if _serr(x, kr.state_from_coe(*sig)) <= 2.0 * tol + 4.0 * (e if e < 2 * E_LIM else 0.0):
                         return "coe-roundtrip-retrograde-equatorial"
             return generic + sfx
         return k
@@ -508,7 +518,7 @@ def chk_orbit(ctx, els):
     def key_b(x, generic):
         """singularityCheck forms raan + argp (+ anomaly) where a retrograde equatorial orbit needs argp - raan."""
         def k(tol):
-            if retro_eq and _serr(x, kr.state_from_coe(sma, e, inc, -raan, argp, nu)) <= max(tol, 1e-9) + 4.0 * apx:
+            if retro_eq and _serr(x, kr.state_from_coe(sma, e, inc, -raan, argp, nu)) <= 2.0 * tol:
                 return "singularity-check-retrograde-equatorial"
             return generic + sfx
         return k
@@ -709,7 +719,7 @@ def chk_config(ctx, cfg):
     def key_b(x, generic):
         """singularityCheck forms raan + argp (+ anomaly) where a retrograde equatorial orbit needs argp - raan."""
         def k(tol):
-            if eq180 and _serr(x, kr.state_from_coe(sma, e, inc, -els[3], els[4], els[5])) <= max(tol, 1e-9) + 4.0 * apx:
+            if eq180 and _serr(x, kr.state_from_coe(sma, e, inc, -els[3], els[4], els[5])) <= 2.0 * tol:
                 return "singularity-check-retrograde-equatorial"
             return generic + ("-retrograde-equatorial" if eq180 else "")
         return k
